@@ -229,6 +229,13 @@ def run_case(case):
                                      msg=f"{case['prog']} agg={case['agg']} history={hist}: req[{j}] got {got.tolist()} expected previous+update "
                                          f"{np.asarray(exp).tolist()} (previous {None if before[j] is None else before[j].tolist()})"))
                     return False
+                if before[j] is not None and p.grad.data_ptr() != ids_before[j]:
+                    # reading of "add to an existing .grad instead of replacing it": the existing gradient tensor (its storage,
+                    # which the property lists among the things to observe) receives the update; a handle kept by the user or a
+                    # flat buffer the .grad fields are views of must see it.
+                    viol.append(dict(sig="existing-grad-replaced", cls=f"replaced:{case['prog']}",
+                                     msg=f"{case['prog']} history={hist}: req[{j}] existing .grad storage was replaced instead of added to"))
+                    return False
             # (iv) fresh .grad shares memory with nothing
             fresh = [j for j in range(len(req)) if before[j] is None]
             reach = [("param", p) for p in params] + [("inter", t) for t in inter]
